@@ -1,15 +1,162 @@
 #!/usr/bin/env python3
-"""Translator: /repo/src constants -> lean/KpModel/Generated/Consts.lean (regenerated on every run)."""
+"""Translator: constant tables of /repo/src -> lean/KpModel/Generated/Consts.lean (regenerated on every run).
+
+usage: gen_consts.py <repo> <out.lean>
+Prints `MISSING <item>` for every item it can no longer find (the caller treats that as an obligation that was not generated).
+Only regular expressions over the source text; no Rust is executed.
+"""
 import sys, os, re
+
+
+def read(repo, rel):
+    try:
+        return open(os.path.join(repo, 'src', rel), encoding='utf-8').read()
+    except OSError:
+        return ''
+
 
 def main():
     repo, dst = sys.argv[1], sys.argv[2]
+    missing = []
+    nat = {}    # name -> int
+    byts = {}   # name -> list of ints
+    strs = {}   # name -> str
+
+    def want_nat(name, text, pattern):
+        m = re.search(pattern, text, re.S)
+        if not m:
+            missing.append(name)
+            return
+        v = m.group(1).replace('_', '')
+        nat[name] = int(v, 16) if v.lower().startswith('0x') else int(v)
+
+    def want_hex(name, text, const):
+        m = re.search(r'const\s+' + const + r'\s*:\s*\[u8;\s*\d+\]\s*=\s*hex!\("([0-9a-fA-F]+)"\)', text)
+        if not m:
+            missing.append(name)
+            return
+        h = m.group(1)
+        byts[name] = [int(h[i:i + 2], 16) for i in range(0, len(h), 2)]
+
+    def want_str(name, text, const):
+        m = re.search(r'const\s+' + const + r'\s*:\s*&str\s*=\s*"([^"]*)"', text)
+        if not m:
+            missing.append(name)
+            return
+        strs[name] = m.group(1)
+
+    k4 = read(repo, 'format/kdbx4/mod.rs')
+    for c in ['HEADER_END', 'HEADER_COMMENT', 'HEADER_OUTER_ENCRYPTION_ID', 'HEADER_COMPRESSION_ID', 'HEADER_MASTER_SEED',
+              'HEADER_ENCRYPTION_IV', 'HEADER_KDF_PARAMS', 'INNER_HEADER_END', 'INNER_HEADER_RANDOM_STREAM_ID',
+              'INNER_HEADER_RANDOM_STREAM_KEY', 'INNER_HEADER_BINARY_ATTACHMENTS']:
+        want_nat(c, k4, r'pub const ' + c + r'\s*:\s*u8\s*=\s*(0x[0-9a-fA-F]+|\d+)\s*;')
+    want_nat('HEADER_MASTER_SEED_SIZE', k4, r'pub const HEADER_MASTER_SEED_SIZE\s*:\s*usize\s*=\s*(\d+)\s*;')
+
+    cfg = read(repo, 'config.rs')
+    for c in ['CIPHERSUITE_AES256', 'CIPHERSUITE_TWOFISH', 'CIPHERSUITE_CHACHA20', 'KDF_AES_KDBX3', 'KDF_AES_KDBX4', 'KDF_ARGON2', 'KDF_ARGON2ID']:
+        want_hex(c, cfg, c)
+    for c in ['PLAIN', 'SALSA_20', 'CHA_CHA_20']:
+        want_nat('INNER_' + c, cfg, r'const ' + c + r'\s*:\s*u32\s*=\s*(\d+)\s*;')
+    for c in ['KDF_ID', 'KDF_MEMORY', 'KDF_SALT', 'KDF_ITERATIONS', 'KDF_PARALLELISM', 'KDF_VERSION', 'KDF_SEED', 'KDF_ROUNDS']:
+        want_str(c, cfg, c)
+    # fn seed_size: every arm returns the same literal
+    m = re.search(r'fn seed_size\(&self\)\s*->\s*usize\s*\{(.*?)\n    \}', cfg, re.S)
+    if m:
+        vals = set(re.findall(r'=>\s*(\d+)', m.group(1)))
+        if len(vals) == 1:
+            nat['KDF_SEED_SIZE'] = int(vals.pop())
+        else:
+            missing.append('KDF_SEED_SIZE')
+    else:
+        missing.append('KDF_SEED_SIZE')
+    # compression ids: dump() arms and try_from arms
+    m = re.search(r'impl CompressionConfig \{.*?fn dump\(&self\)\s*->\s*\[u8; 4\]\s*\{(.*?)\n    \}', cfg, re.S)
+    if m:
+        arms = dict(re.findall(r'CompressionConfig::(\w+)\s*=>\s*\[(\d+),', m.group(1)))
+        if 'None' in arms and 'GZip' in arms:
+            nat['COMPRESSION_NONE'] = int(arms['None'])
+            nat['COMPRESSION_GZIP'] = int(arms['GZip'])
+        else:
+            missing.append('COMPRESSION ids')
+    else:
+        missing.append('COMPRESSION ids')
+
+    cph = read(repo, 'crypt/ciphers.rs')
+    for name, ty in [('AES256', 'AES256Cipher'), ('TWOFISH', 'TwofishCipher'), ('SALSA20', 'Salsa20Cipher'), ('CHACHA20', 'ChaCha20Cipher'), ('PLAIN', 'PlainCipher')]:
+        m = re.search(r'impl Cipher for ' + ty + r' \{(.*?)\n\}', cph, re.S)
+        if not m:
+            missing.append(name + '_IV_SIZE')
+            missing.append(name + '_KEY_SIZE')
+            continue
+        body = m.group(1)
+        mi = re.search(r'fn iv_size\(\)\s*->\s*usize\s*\{\s*(?://[^\n]*\n\s*)*(\d+)\s*\}', body)
+        mk = re.search(r'fn key_size\(\)\s*->\s*usize\s*\{\s*(?://[^\n]*\n\s*)*(\d+)\s*\}', body)
+        if mi:
+            nat[name + '_IV_SIZE'] = int(mi.group(1))
+        else:
+            missing.append(name + '_IV_SIZE')
+        if mk:
+            nat[name + '_KEY_SIZE'] = int(mk.group(1))
+        else:
+            missing.append(name + '_KEY_SIZE')
+    m = re.search(r'GenericArray::from\(\[((?:\s*0x[0-9A-Fa-f]{2},?)+)\s*\]\)', cph)
+    if m:
+        byts['SALSA20_NONCE'] = [int(x, 16) for x in re.findall(r'0x([0-9A-Fa-f]{2})', m.group(1))]
+    else:
+        missing.append('SALSA20_NONCE')
+
+    vd = read(repo, 'variant_dictionary.rs')
+    want_nat('VARIANT_DICTIONARY_VERSION', vd, r'pub const VARIANT_DICTIONARY_VERSION\s*:\s*u16\s*=\s*(0x[0-9a-fA-F]+|\d+)\s*;')
+    for c in ['VARIANT_DICTIONARY_END', 'U32_TYPE_ID', 'U64_TYPE_ID', 'BOOL_TYPE_ID', 'I32_TYPE_ID', 'I64_TYPE_ID', 'STR_TYPE_ID', 'BYTES_TYPE_ID']:
+        want_nat(c, vd, r'pub const ' + c + r'\s*:\s*u8\s*=\s*(0x[0-9a-fA-F]+|\d+)\s*;')
+
+    fm = read(repo, 'format/mod.rs')
+    m = re.search(r'const KDBX_IDENTIFIER\s*:\s*\[u8; 4\]\s*=\s*\[([^\]]+)\]', fm)
+    if m:
+        byts['KDBX_IDENTIFIER'] = [int(x.strip(), 16) for x in m.group(1).split(',') if x.strip()]
+    else:
+        missing.append('KDBX_IDENTIFIER')
+    for c in ['KEEPASS_1_ID', 'KEEPASS_2_ID', 'KEEPASS_LATEST_ID']:
+        want_nat(c, fm, r'pub const ' + c + r'\s*:\s*u32\s*=\s*(0x[0-9a-fA-F]+)\s*;')
+    for c in ['KDBX3_MAJOR_VERSION', 'KDBX4_MAJOR_VERSION', 'KDBX4_CURRENT_MINOR_VERSION']:
+        want_nat(c, fm, r'pub const ' + c + r'\s*:\s*u16\s*=\s*(\d+)\s*;')
+    want_nat('VERSION_HEADER_SIZE', fm, r'fn get_version_header_size\(\)\s*->\s*usize\s*\{\s*(\d+)\s*\}')
+
+    hb = read(repo, 'hmac_block_stream.rs')
+    m = re.search(r'pub const HMAC_KEY_END\s*:\s*\[u8; 1\]\s*=\s*hex!\("([0-9a-fA-F]{2})"\)', hb)
+    if m:
+        byts['HMAC_KEY_END'] = [int(m.group(1), 16)]
+    else:
+        missing.append('HMAC_KEY_END')
+
+    db = read(repo, 'db/mod.rs')
+    for c in ['EXPIRY_TIME_TAG_NAME', 'LAST_MODIFICATION_TIME_TAG_NAME', 'CREATION_TIME_TAG_NAME', 'LAST_ACCESS_TIME_TAG_NAME', 'LOCATION_CHANGED_TAG_NAME']:
+        want_str(c, db, c)
+
+    otp = read(repo, 'db/otp.rs')
+    want_nat('TOTP_DEFAULT_PERIOD', otp, r'const DEFAULT_PERIOD\s*:\s*u64\s*=\s*(\d+)\s*;')
+    want_nat('TOTP_DEFAULT_DIGITS', otp, r'const DEFAULT_DIGITS\s*:\s*u32\s*=\s*(\d+)\s*;')
+
     out = ['/- GENERATED by tools/gen_consts.py from /repo/src on every run. Do not edit. -/', 'namespace Kp.Gen', '']
+    for k in sorted(nat):
+        out.append('def %s : Nat := %d' % (k, nat[k]))
+    out.append('')
+    for k in sorted(byts):
+        out.append('def %s : List UInt8 := [%s]' % (k, ', '.join(str(b) for b in byts[k])))
+    out.append('')
+    for k in sorted(strs):
+        chars = ', '.join("Char.ofNat %d" % ord(ch) for ch in strs[k])
+        out.append('def %s : List Char := [%s]' % (k, chars))
+    out.append('')
+    # anything that could not be extracted is declared opaque-free: a missing definition makes the tie theorems fail to elaborate
     out.append('end Kp.Gen')
     text = '\n'.join(out) + '\n'
     os.makedirs(os.path.dirname(dst), exist_ok=True)
     if not os.path.exists(dst) or open(dst).read() != text:
         open(dst, 'w').write(text)
+    for m_ in missing:
+        print('MISSING ' + m_)
     return 0
+
 
 sys.exit(main())
